@@ -1,7 +1,7 @@
 #!/bin/bash
-# usage: refactest.sh [root]  — applies each behaviour-preserving refactoring to a scratch copy
+# usage: refactest.sh [root] [filter]  — applies each behaviour-preserving refactoring to a scratch copy
 # and lists the alarms the checker raises on it (every one of them is a false alarm).
-root=${1:-/verif/refactorings}
+root=${1:-/verif/refactorings}; filt=${2:-}
 one() {
   d=$1
   [ -f $d/patch.diff ] || exit 0
@@ -14,4 +14,4 @@ one() {
   rm -rf $t
 }
 export -f one
-ls -d $root/*/[0-9]* $root/*-[0-9]* 2>/dev/null | sort -u | xargs -P ${J:-8} -I{} bash -c 'one {}' | awk '/^== /{hdr=$0; key=$2} {print key "\t" $0}' | sort -s -k1,1 | cut -f2-
+ls -d $root/*/[0-9]* $root/*-[0-9]* 2>/dev/null | sort -u | grep -F -- "$filt" | xargs -P ${J:-8} -I{} bash -c 'one {}' | awk '/^== /{hdr=$0; key=$2} {print key "\t" $0}' | sort -s -k1,1 | cut -f2-
